@@ -171,7 +171,7 @@ def load_history():
             if os.path.exists(path):
                 with open(path, "r") as f:
                     return [line.strip() for line in f.readlines()
-                            if len(line.strip())>0]
+                            if len(line.strip())>0 and "\0" not in line]
         except Exception as e:
             print("Failed to load history because: " + str(e), file=sys.stderr)
     return []
